@@ -8,6 +8,7 @@ use std::panic;
 
 include!("../../kani/specs.rs");
 mod ops;
+mod native;
 
 fn main() {
     let args: Vec<String> = std::env::args().collect();
